@@ -299,6 +299,44 @@ func TestVerifC19Rsv(t *testing.T) {
 		pl := &Plugin{reservationCache: live.cache, nominator: live.ph.nominator}
 		pl.handle = &c19Handle{nm: pl}
 
+		// ---- hypothesis coverage (no oracle): the whole-cache theorem rsv_cache_rebuilt_eq_live (Proofs/C19ExtRsvCache.lean)
+		// assumes `wfHist` of the LIVE history.  Its three clauses are evaluated here from the real objects of every
+		// live event, independently of the model, and tagged hyp:wf-ok / hyp:wf-violated:<clause> per case.
+		hypResv := map[types.UID]string{} // delivered Reservations: node|once|allocatable
+		type hypPod struct {
+			rid  types.UID
+			term bool
+		}
+		hypPods := map[types.UID]hypPod{}
+		hypViol := map[string]bool{}
+		hypR := func(ro *schedulingv1alpha1.Reservation) {
+			var decl [c19D]int64
+			for d := 0; d < c19D; d++ {
+				decl[d] = -1
+				if _, ok := ro.Status.Allocatable[c19Names[d]]; ok {
+					decl[d] = c19Val(d, ro.Status.Allocatable)
+				}
+			}
+			spec := fmt.Sprintf("%s|%v|%v", ro.Status.NodeName, ro.Spec.AllocateOnce != nil && *ro.Spec.AllocateOnce, decl)
+			if old, ok := hypResv[ro.UID]; ok && old != spec {
+				hypViol["resv-update-changes-node-once-or-allocatable"] = true
+			}
+			hypResv[ro.UID] = spec
+		}
+		hypP := func(pod *corev1.Pod) {
+			nw := hypPod{term: pod.Status.Phase == corev1.PodSucceeded || pod.Status.Phase == corev1.PodFailed}
+			if ra, err := apiext.GetReservationAllocated(pod); err == nil && ra != nil {
+				nw.rid = ra.UID
+			}
+			if _, known := hypResv[nw.rid]; !nw.term && nw.rid != "" && !known {
+				hypViol["pod-names-reservation-not-yet-delivered"] = true
+			}
+			if old, had := hypPods[pod.UID]; nw.term && had && !(old.term || old.rid == "" || old.rid == nw.rid) {
+				hypViol["terminating-update-changes-annotation"] = true
+			}
+			hypPods[pod.UID] = nw
+		}
+
 		// ---- reservations ----
 		nR := r.Range(1, 3)
 		nNodes := r.Range(1, 2)
@@ -324,7 +362,9 @@ func TestVerifC19Rsv(t *testing.T) {
 			}
 			resvs = append(resvs, o)
 			h.Op("rsv resv %d %d %d %s", o.rid, o.node, vB(o.once), vInts(o.decl[:]))
-			live.rh.OnAdd(c19BuildR(o, nil), false)
+			ro := c19BuildR(o, nil)
+			hypR(ro)
+			live.rh.OnAdd(ro, false)
 			emit(live)
 		}
 
@@ -419,6 +459,7 @@ func TestVerifC19Rsv(t *testing.T) {
 					p.obj = pod
 					pods[p.pid] = p
 					order = append(order, p.pid)
+					hypP(pod) // Reserve assumed the pod on the live cache: the history's first `pod` event for it
 				}
 				h.Obs("assign %d %d", st, rt)
 				h.Tag("op:assign")
@@ -427,6 +468,7 @@ func TestVerifC19Rsv(t *testing.T) {
 				p := pods[pid]
 				h.Op("rsv bound %d", pid)
 				old := c19BuildPod(p.pid, p.req)
+				hypP(p.obj)
 				live.ph.OnUpdate(old, p.obj)
 				h.Tag("op:bound")
 			case k == 6: // update event carrying the same assignment
@@ -435,6 +477,7 @@ func TestVerifC19Rsv(t *testing.T) {
 				h.Op("rsv upd %d", pid)
 				nw := p.obj.DeepCopy()
 				nw.Labels = map[string]string{"touched": strconv.Itoa(s)}
+				hypP(nw)
 				live.ph.OnUpdate(p.obj, nw)
 				p.obj = nw
 				h.Tag("op:upd")
@@ -443,6 +486,7 @@ func TestVerifC19Rsv(t *testing.T) {
 				p := pods[pid]
 				h.Op("rsv del %d", pid)
 				live.ph.OnDelete(c19DelShape(h, r, p.obj)) // the registered entry point (type switch), either shape
+				delete(hypPods, p.obj.UID)
 				delete(pods, pid)
 				h.Tag("op:del")
 			case k == 8: // pod terminates (object survives, phase Succeeded)
@@ -451,6 +495,7 @@ func TestVerifC19Rsv(t *testing.T) {
 				h.Op("rsv term %d", pid)
 				nw := p.obj.DeepCopy()
 				nw.Status.Phase = corev1.PodSucceeded
+				hypP(nw)
 				live.ph.OnUpdate(p.obj, nw)
 				p.obj = nw
 				p.term = true
@@ -458,7 +503,9 @@ func TestVerifC19Rsv(t *testing.T) {
 			default: // the reservation controller patched status; the informer delivers the update
 				o := resvs[r.Intn(len(resvs))]
 				h.Op("rsv rupd %d", o.rid)
-				live.rh.OnUpdate(c19BuildR(o, nil), c19BuildR(o, assignedTo(o.rid)))
+				nwR := c19BuildR(o, assignedTo(o.rid))
+				hypR(nwR)
+				live.rh.OnUpdate(c19BuildR(o, nil), nwR)
 				h.Tag("op:rupd")
 			}
 			emit(live)
@@ -479,6 +526,12 @@ func TestVerifC19Rsv(t *testing.T) {
 			h.Nontrivial()
 		}
 		h.Tag(fmt.Sprintf("surviving-assigned:%d", alive))
+		if len(hypViol) == 0 {
+			h.Tag("hyp:wf-ok")
+		}
+		for c := range hypViol {
+			h.Tag("hyp:wf-violated:" + c)
+		}
 		liveSum := c19Summary(live.cache)
 		// the early-pod stream reports at most one failure per case, under its own fingerprint
 		earlyFailed := false
